@@ -278,6 +278,17 @@ func checkC11(c *Ctx) {
 								}
 							}
 						}
+						// or inside a named function that the handler starts with `go` (liftTo leaves go statements out)
+						for _, lc := range core.CallsIn(leave) {
+							if _, isGo := lc.Instr.(*ssa.Go); !isGo || lc.Static == nil {
+								continue
+							}
+							for _, g := range c.funcsDeep(lc.Static, 3) {
+								if g == cl.Instr.Parent() {
+									ats = append(ats, lc.Instr)
+								}
+							}
+						}
 						for _, at := range ats {
 							all := true
 							for _, rb := range leave.Blocks {
